@@ -61,8 +61,14 @@ pub fn scale_world(w: &mut World, case_seed: u64, allow_base: bool, allow_deep: 
             "base-250"
         }
         2 if allow_base && allow_deep => {
-            w.base = 65_530 + r.below(4);
-            "base-65530"
+            if r.chance(1, 2) {
+                w.base = 65_530 + r.below(4);
+                "base-65530"
+            } else {
+                // transactions below height ~5 and again above height 65 536 + ~5
+                w.profile.gap = Some((3 + r.below(3), 65_536 + r.below(3)));
+                "gap-65536"
+            }
         }
         3 => {
             w.profile.p_odd_ids = 30;
